@@ -219,6 +219,66 @@ func (ac *assertChecker) findDispatchSites() {
 				if !ok || call.Call.IsInvoke() || call.Call.StaticCallee() != nil {
 					continue
 				}
+				// the function comes out of a lookup helper (`fn, known := lookupBuiltin(R.Type(), name)`): every function it
+				// returns is the Fn of functions[t][...] for its parameter t, and the call site passes R.Type() for t
+				{
+					var hc *ssa.Call
+					idx := 0
+					switch x := call.Call.Value.(type) {
+					case *ssa.Call:
+						hc = x
+					case *ssa.Extract:
+						hc, _ = x.Tuple.(*ssa.Call)
+						idx = x.Index
+					}
+					if hc != nil && hc.Call.StaticCallee() != nil && m.InModule(hc.Call.StaticCallee()) && hc.Call.StaticCallee().Blocks != nil && len(call.Call.Args) >= 2 {
+						h := hc.Call.StaticCallee()
+						pi, okAll, nRet := -1, true, 0
+						for _, rv := range m.returnedAt(h, idx) {
+							nRet++
+							ld, isLd := rv.(*ssa.UnOp)
+							if !isLd {
+								okAll = false
+								break
+							}
+							fa, isFA := ld.X.(*ssa.FieldAddr)
+							if !isFA || !strings.HasSuffix(derefTypeString(fa.X.Type()), "object.Builtin") {
+								okAll = false
+								break
+							}
+							inner := lookupOf(fa.X)
+							if inner == nil {
+								okAll = false
+								break
+							}
+							outer := lookupOf(inner.X)
+							if outer == nil {
+								okAll = false
+								break
+							}
+							g, isG := derefGlobal(outer.X)
+							par, isPar := outer.Index.(*ssa.Parameter)
+							if !isG || canonGlobalName(g) != "functions" || !isPar {
+								okAll = false
+								break
+							}
+							for i, q := range h.Params {
+								if q == par {
+									if pi >= 0 && pi != i {
+										okAll = false
+									}
+									pi = i
+								}
+							}
+						}
+						if okAll && nRet > 0 && pi >= 0 && pi < len(hc.Call.Args) {
+							if r := typeCallRecv(hc.Call.Args[pi]); r != nil && call.Call.Args[1] == r {
+								ac.dispatchSites[call] = r
+							}
+						}
+						continue
+					}
+				}
 				// callee value: *(&b.Fn)
 				ld, ok := call.Call.Value.(*ssa.UnOp)
 				if !ok {
